@@ -85,7 +85,7 @@ def main():
             detail = [l.strip() for l in out.splitlines() if l.startswith("  ")][:3]
             entry["checks"][chk] = {"exit": r.returncode, "violations": len(vio), "first": detail,
                                     "wall_s": round(time.time() - t0), "tail": out.splitlines()[-1:] }
-            verdict = "caught" if r.returncode == 1 else "quiet" if r.returncode == 0 else "harness-error"
+            verdict = "caught" if r.returncode == 1 else "quiet" if r.returncode == 0 else "undecided"
             ok = verdict == m["expect"]
             print("%-34s %-4s %-13s expect=%-6s %s %ds" % (m["id"], chk, verdict, m["expect"],
                                                           "OK" if ok else "<<<<< MISMATCH", time.time() - t0))
